@@ -141,7 +141,7 @@ func init() {
 		if c.err != nil {
 			c.timer.stopped = true
 		}
-		S.timers = append(S.timers, c.timer)
+		S.addTimer(c.timer)
 		cancel := &nativeFn{"context.cancel", func(fr *frame, _ []value) value {
 			c.cancel(ctxGlobalErr(i, "Canceled"))
 			return nil
@@ -191,7 +191,7 @@ func init() {
 	ext("time.After", func(fr *frame, a []value) value {
 		ch := newChannel(1, types.Typ[types.Int64])
 		S.timerSeq++
-		S.timers = append(S.timers, &timer{ch: ch, dur: asInt64(a[0]), seq: S.timerSeq})
+		S.addTimer(&timer{ch: ch, dur: asInt64(a[0]), seq: S.timerSeq})
 		return ch
 	})
 	ext("time.NewTicker", func(fr *frame, a []value) value { return newTickerValue(fr, asInt64(a[0]), true) })
@@ -199,7 +199,7 @@ func init() {
 	ext("time.Tick", func(fr *frame, a []value) value {
 		ch := newChannel(1, types.Typ[types.Int64])
 		S.timerSeq++
-		S.timers = append(S.timers, &timer{ch: ch, dur: asInt64(a[0]), seq: S.timerSeq, periodic: true})
+		S.addTimer(&timer{ch: ch, dur: asInt64(a[0]), seq: S.timerSeq, periodic: true})
 		return ch
 	})
 	stop := func(fr *frame, a []value) value {
@@ -226,7 +226,7 @@ func init() {
 		t.fn = func() {
 			S.spawn("afterfunc", func() { call(i, nil, 0, f, nil) })
 		}
-		S.timers = append(S.timers, t)
+		S.addTimer(t)
 		return newTimerStruct(fr, "Timer", nil, t)
 	})
 }
@@ -257,7 +257,7 @@ func newTickerValue(fr *frame, dur int64, periodic bool) value {
 	ch := newChannel(1, types.Typ[types.Int64])
 	S.timerSeq++
 	t := &timer{ch: ch, dur: dur, seq: S.timerSeq, periodic: periodic}
-	S.timers = append(S.timers, t)
+	S.addTimer(t)
 	name := "Timer"
 	if periodic {
 		name = "Ticker"
